@@ -2,13 +2,13 @@
 
 M: spec/InvRoot (case structure + bookkeeping of the Newton / eigh / LOBPCG-deflated routines)
    exhaustively: every case of a lattice x every environment choice of the retry automaton.
-R: InvRoot_Gen enumerates the full C01 case lattice (117k f64 cases) and exports a slice chosen by
+R: InvRoot_Gen enumerates the full C01 case lattice (147 456 cases per dtype) and exports a slice chosen by
    tier and VERIF_SEED; each case is built as Q diag(a) Q^T and pushed through the real routine;
    what the spec derives for the case (branch, fixed retry count, all-padding result, dtype /
    shape) is compared directly.
 V: every real call is laid out as a trace and validated by TLC against InvRoot_Trace: structural
    clauses, retry-automaton consistency, lambda_hat <= lambda_max, and - in float64 - the
-   acceptance relation  measured residual <= figure (1 + 2^-23) + 100 n p u cond(A + dI)  with
+   acceptance relation  measured residual <= figure (1 + 2^-23) + 1000 n p u cond(A + dI)  with
    the ridge d reconstructed BY THE SPEC from (relative/absolute, estimate vs floor, retries)
    and the slack computed BY THE SPEC from the case's spectrum; the worker only measures
    residuals for every candidate (base, escalation) pair.
@@ -22,6 +22,7 @@ from harness import core
 LEVEL = "exploration"
 WORKER = "harness.workers.invroot_run"
 U = 2.0 ** -53
+SLACK_C = 1000          # InvRoot!SlackC (python replica: calibration records only)
 
 
 class _Collect:
@@ -125,7 +126,7 @@ def slack_of(c, d, o, base, k, u):
   amin = 0.0 if len(c["exps"]) < d["m"] else 10.0 ** (c["c"] - max(c["exps"]))
   lam = amax if d["lamSource"] == "hidden" else o["lam"]
   dd = 10.0 ** -c["eexp"] * {"abs": 1.0, "rel_floor": 10.0 ** -d["floorExp"], "rel_lam": lam}[base] * 10.0 ** k
-  return 100 * c["n"] * c["p"] * u * amax / (amin + dd)
+  return SLACK_C * c["n"] * c["p"] * u * amax / (amin + dd)
 
 
 def calibrate(ck, pairs, verdicts):
@@ -145,9 +146,9 @@ def calibrate(ck, pairs, verdicts):
     if c["dt"] == "f64" and o["fc"] == "below" and not d["allpad"] and "meas_raw" in o and pi_ok:
       base, k = selected(j, r)
       col = o["meas_raw"].get(base, [])
-      if k < len(col):
+      slack = slack_of(c, d, o, base, k, U) if k < len(col) else 0.0
+      if k < len(col) and slack / (SLACK_C * c["n"] * c["p"] * U) <= 1e13:      # InvRoot!NumDomain
         n_honest += 1
-        slack = slack_of(c, d, o, base, k, U)
         n_sharp += slack < 1e-6
         ratio = max(0.0, (col[k] - o["err"] * (1 + 2.0 ** -23)) / slack)
         ck.calib("honest_excess_over_slack", ratio, 1.0)
@@ -157,26 +158,10 @@ def calibrate(ck, pairs, verdicts):
   return n_honest, n_sharp
 
 
-def run(ck):
-  quick = ck.quick
-  # ---- M ------------------------------------------------------------------------------
-  acts = ["Mask", "Deflate", "Estimate", "Size1", "Attempt", "ExitLoop", "Redeflate", "Decompose",
-          "Report", "Override", "Gate"]
-  ck.mc("InvRoot_MC", "InvRoot_MC", required_actions=acts)
-  if not quick:
-    ck.mc("InvRoot_MCT", "InvRoot_MCT", required_actions=acts, timeout=7200)
-  # ---- cases from TLC -----------------------------------------------------------------
-  mod64, mod32 = (499, 1499) if quick else (13, 41)
-  items = ck.gen("InvRoot_Gen", "InvRoot_Gen",
-                 env={"GEN_MOD": str(mod64), "GEN_MOD32": str(mod32), "GEN_SLICE": str(ck.seed)},
-                 timeout=3600)
-  ck.cov["lattice_slice"] = {"mod_f64": mod64, "mod_f32": mod32, "slice": ck.seed, "cases": len(items)}
-  ck.sample({"case_from_TLC": items[len(items) // 2]})
-  # ---- R ------------------------------------------------------------------------------
-  jobs, res = run_cases(ck, items)
+def judge(ck, jobs, res):
+  """R comparison, then V: every remaining real call validated by TLC; reports violations."""
   pairs = replay_compare(ck, jobs, res)
-  # ---- V ------------------------------------------------------------------------------
-  verdicts = validate(ck, pairs)
+  verdicts = validate(ck, pairs) if pairs else []
   tally = {"size1": 0, "allpad": 0, "padded": 0, "retried": 0, "exhausted": 0, "accepted": 0,
            "rejected_by_gate": 0, "floor_active": 0, "lobpcg": 0, "f32": 0, "pi_premise_failed": 0,
            "in_domain_cond_le_1e8": 0, "in_domain_not_accepted": 0, "in_domain_ridge_escalated": 0}
@@ -195,7 +180,7 @@ def run(ck):
     tally["f32"] += c["dt"] == "f32"
     if c["dt"] == "f64" and c["method"] != "lobpcg" and not d["allpad"] and o["finite"]:
       base, _ = selected(j, r)
-      cond0 = slack_of(c, d, o, base, 0, U) / (100 * c["n"] * c["p"] * U)     # with the configured ridge
+      cond0 = slack_of(c, d, o, base, 0, U) / (SLACK_C * c["n"] * c["p"] * U)   # with the configured ridge
       if cond0 <= 1.0001e8:
         tally["in_domain_cond_le_1e8"] += 1
         tally["in_domain_not_accepted"] += not o["accepted"]
@@ -217,6 +202,39 @@ def run(ck):
                    f"{label(c)}: trace rejected at event {v['l']} ({v['verdict']}); observed "
                    f"error={o['err']} lambda_hat={o['lam']} retries={o['retries']}",
                    {"job": j, "obs": o, "events": r["events"], "verdict": v})
+  return pairs, verdicts, tally
+
+
+def run(ck):
+  quick = ck.quick
+  if getattr(ck, "replay", None):
+    # re-run the saved case on the code as it is NOW and judge it (R comparison + TLC validation)
+    saved = json.load(open(ck.replay))["case"]
+    if "job" not in saved:
+      raise core.MachineryError("replay file holds no exported case")
+    job = saved["job"]
+    res = core.run_workers(WORKER, [job], x64=job["case"]["dt"] == "f64", work=ck.work)
+    pairs, verdicts, _ = judge(ck, [job], res)
+    ck.sample({"replayed": job["case"],
+               "observed": {k: v for k, v in (res[0].get("obs") or {}).items() if k != "meas_raw"},
+               "verdict": verdicts[0]["verdict"] if verdicts else "rejected by the replay comparison"})
+    return
+  # ---- M ------------------------------------------------------------------------------
+  acts = ["Mask", "Deflate", "Estimate", "Size1", "Attempt", "ExitLoop", "Redeflate", "Decompose",
+          "Report", "Override", "Gate"]
+  ck.mc("InvRoot_MC", "InvRoot_MC", required_actions=acts)
+  if not quick:
+    ck.mc("InvRoot_MCT", "InvRoot_MCT", required_actions=acts, timeout=7200)
+  # ---- cases from TLC -----------------------------------------------------------------
+  mod64, mod32 = (499, 1499) if quick else (13, 41)
+  items = ck.gen("InvRoot_Gen", "InvRoot_Gen",
+                 env={"GEN_MOD": str(mod64), "GEN_MOD32": str(mod32), "GEN_SLICE": str(ck.seed)},
+                 timeout=3600)
+  ck.cov["lattice_slice"] = {"mod_f64": mod64, "mod_f32": mod32, "slice": ck.seed, "cases": len(items)}
+  ck.sample({"case_from_TLC": items[len(items) // 2]})
+  # ---- R + V --------------------------------------------------------------------------
+  jobs, res = run_cases(ck, items)
+  pairs, verdicts, tally = judge(ck, jobs, res)
   n_honest, n_sharp = calibrate(ck, pairs, verdicts)
   tally["honest_clause_evaluated"] = n_honest
   tally["honest_clause_sharp_slack_below_1e-6"] = n_sharp
@@ -236,7 +254,8 @@ def run(ck):
             "does not report its estimate: lambda_hat in [lambda_max(1 - 1e-4), lambda_max] for lambda_max >= 1 "
             "(power iteration to 1e-6 on spectra with ratios 1 or <= 1/10), floor 1e-6 below")
   ck.assume("the residual is measured in numpy float64 for every candidate ridge; TLC selects the candidate "
-            "by the spec's ridge rule, computes the slack 100 n p 2^-53 cond(A+dI) and decides the relation; "
+            "by the spec's ridge rule, computes the slack 1000 n p 2^-53 cond(A+dI), restricts the clause to "
+            "cond(A+dI) <= 1e13 and decides the relation; "
             "all decimal roundings go against acceptance")
   ck.assume("float32 compute (x64 off): structural clauses only")
   ck.assume("LOBPCG-deflated variant only for n = 16, k in {2, 3} (jax requires n > 5k; smaller sizes are "
@@ -279,7 +298,8 @@ def selftests(ck, pairs, verdicts):
       return False
     base, k = selected(j, r)
     col = o["meas_raw"][base]
-    return k + 1 < len(col) and col[k + 1] > 100 * (o["err"] * 1.001 + slack_of(c, d, o, base, k, U))
+    return k + 1 < len(col) and col[k + 1] > 100 * (o["err"] * 1.001 + slack_of(c, d, o, base, k, U)) \
+        and slack_of(c, d, o, base, k, U) < 1e-3
   t = pick(shift_matters)
   if t:
     j, r = t
